@@ -416,8 +416,20 @@ package xpath
 //@   modifies nothing
 //@   ensures[nonnil@C15] result != nil
 //@   requires[nonnil-args@C15] arg1 != nil
+// normalize-space(): trim, then rune by rune: a whitespace rune followed by another whitespace rune is
+// dropped, any other whitespace rune becomes one space, every other rune is kept (nsAcc, by its two
+// defining equations). An empty node-set gives "".
+//@ define nsPiece(s, i) = ite(isSpace(rune_(s, i)) && i + 1 < nrunes_(s) && isSpace(rune_(s, i + 1)), "", chr(ite(isSpace(rune_(s, i)), ' ', rune_(s, i))))
+//@ instance nsZero(s) = nsAcc(s, 0) == ""
+//@ instance nsStep(s, i) = 0 <= i && i < nrunes_(s) ==> nsAcc(s, i + 1) == nsAcc(s, i) + nsPiece(s, i)
+//@ define xnorm(m) = nsAcc(str_trimspace(m), nrunes_(str_trimspace(m)))
 //@ func normalizespaceFunc$1
 //@   props C15 C04 C05 C13 C09
+//@   loop 0 apply nsZero(str_trimspace(m))
+//@   loop 0 apply nsStep(str_trimspace(m), rangeindex)
+//@   loop 0 invariant[collapsed-so-far@C09] buf(b) == nsAcc(str_trimspace(m), rangeindex + 1)
+//@   ensures[normalize-space@C09] called(TrimSpace, 0) ==> result == box(xnorm(m))
+//@   ensures[empty-node-set@C09] !called(TrimSpace, 0) ==> result == box("")
 //@   theory stream for C04 C05 C14 C13 C09
 //@   ensures[pure-arg1@C04,C05] stateless(arg1) || k(arg1) == old(k(arg1)) && epoch(arg1) == old(epoch(arg1))
 //@   conforms functionQuery.Func
